@@ -878,7 +878,8 @@ fn main() {
 
     // ---- sequences over the representative set, fresh server per sequence
     let rep = representative();
-    let depth = ctx.tier.pick(2usize, 3);
+    // quick: all pairs; thorough: all sequences of four (24^4 = 331 776 fresh servers, about 20 minutes)
+    let depth = ctx.tier.pick(2usize, 4);
     let n = rep.len();
     let total: usize = n.pow(depth as u32);
     let budget = ctx.tier.pick(50.0, 2400.0);
